@@ -39,6 +39,10 @@ func nibText(l []any, upper bool) string {
 	return sb.String()
 }
 
+// byte forms handed out for the previous GUID: they must still be that GUID's bytes after later conversions
+var prevGUIDForms [][]byte
+var prevGUIDWant []byte
+
 func runConv(sc M) {
 	id := sc["sc"]
 	bad := []string{}
@@ -51,6 +55,15 @@ func runConv(sc M) {
 			w := intsToBytes(list(sc, "wire"))
 			text := nibText(list(sc, "text"), false)
 			g := util.BytesToGUID(b)
+			oldForms, oldWant := prevGUIDForms, prevGUIDWant
+			prevGUIDForms, prevGUIDWant = [][]byte{util.GUIDToBytes(g), g.Bytes()}, append([]byte{}, b...)
+			defer func() {
+				for _, old := range oldForms {
+					if !bytes.Equal(old, oldWant) {
+						fail("the byte form returned for the previous GUID changed to %x after converting another GUID (was %x)", old, oldWant)
+					}
+				}
+			}()
 			if got := g.Format(); got != text {
 				fail("Format() = %q, specification %q", got, text)
 			}
